@@ -13,7 +13,7 @@ import (
 
 // C17 — vi delete removes exactly what yank would copy.
 
-const c17Rule = "buffers (words, punctuation, quotes, brackets, blanks, some multi-byte) x cursor positions (vi command mode) x motions and text objects from the statement's list (h l w b e W B E 0 $ ^ f/F/t/T<c> % ge gE iw aw iW aW i<q> a<q> i<b> a<b> ia aa) with optional counts before the operator and/or the motion, in operator-pending form (d<m> / y<m>) and visual form (v<m>d / v<m>y); keys one per read; oracle (differential, two fresh sessions with an identical prefix): yank leaves the buffer unchanged; the register after delete equals the register after yank; the buffer after delete is the original with one contiguous occurrence of that text removed; a motion that fails leaves buffer and register unchanged in both; non-trivial = register non-empty and the motion is not h/l with count 1; distinct = hash of the case"
+const c17Rule = "buffers (words, punctuation, quotes, brackets, blanks, some multi-byte) x cursor positions (vi command mode) x motions and text objects from the statement's list (h l w b e W B E 0 $ ^ f/F/t/T<c> % ge gE iw aw iW aW i<q> a<q> i<b> a<b> ia aa) with optional counts before the operator and/or the motion, in operator-pending form (d<m> / y<m>) and visual form (v<m>d / v<m>y); keys one per read; under 0-3 display-only variables (blink-matching-paren, show-mode-in-prompt, cursor styles, ...); oracle (differential, two fresh sessions with an identical prefix): yank leaves the buffer unchanged; the register after delete equals the register after yank; the buffer after delete is the original with one contiguous occurrence of that text removed; a motion that fails leaves buffer and register unchanged in both; non-trivial = register non-empty and the motion is not h/l with count 1; distinct = hash of the case"
 
 type C17Case struct {
 	Text   string `json:"text"`
@@ -22,6 +22,8 @@ type C17Case struct {
 	OpCnt  int    `json:"opcnt,omitempty"`
 	MoCnt  int    `json:"mocnt,omitempty"`
 	Visual bool   `json:"visual,omitempty"`
+	// display-only variables (the property is stated for any configuration)
+	Vars [][2]string `json:"vars,omitempty"`
 }
 
 var c17Motions = []string{"h", "l", "w", "b", "e", "W", "B", "E", "0", "$", "^", "fa", "Fa", "ta", "Ta", "f ", "F(", "t\"", "T.", "%", "ge", "gE",
@@ -47,6 +49,8 @@ func genC17(t *rapid.T) *C17Case {
 		c.MoCnt = 0
 	}
 
+	c.Vars = genDisplayVars(t)
+
 	return c
 }
 
@@ -57,7 +61,7 @@ type c17Out struct {
 }
 
 func runC17Session(h *Harness, child *rig.Child, c *C17Case, op string) (*c17Out, *Failure) {
-	spec := &proto.Spec{Calls: 1, Inputrc: renderVars("vi", [][2]string{{"convert-meta", "off"}, {"input-meta", "on"}, {"output-meta", "on"}}), LogCmds: true,
+	spec := &proto.Spec{Calls: 1, Inputrc: renderVars("vi", append([][2]string{{"convert-meta", "off"}, {"input-meta", "on"}, {"output-meta", "on"}}, c.Vars...)), LogCmds: true,
 		Prompt: &proto.PromptSpec{Primary: "> "}}
 
 	d := openDrive(h, child, spec, rig.SessionOpts{Cols: 120, Rows: 30})
